@@ -313,7 +313,7 @@ Definition copy_tail (sb : B) (sl1 : L) (name : str) (bh : nat) : B * L * option
         let sl5 := fst (lstep sl4 (HClose lh)) in (sb3, sl5, Some (E KEIO))
       end
     end
-  | (sl2, r) => (sb, sl2, match res_err r with Some e => Some e | None => Some (E KOther) end)
+  | (sl2, r) => (sb, after_failed_create lstep sl2 name, match res_err r with Some e => Some e | None => Some (E KOther) end)
   end.
 
 Lemma copy_file_tail sb sl name bh : copy_file bstep lstep sb sl name bh =
